@@ -48,7 +48,16 @@ Definition path_eqb : path -> path -> bool := list_eqb str_eqb.
 Definition tid := Z.                  (* threading.current_thread().ident *)
 
 (* what listeners read from event.suite / event.test: node.parent_suite's hierarchy, the node's own metadata, its rank.
-   The hierarchy of the node itself is node_path. *)
+   The hierarchy of the node itself is node_path.
+   n_rank is the key the report sorts the node by among its siblings:
+     - suite node: suite.rank;
+     - test node: since the fix "the report must keep the declaration order of tests sharing the same rank" ReportWriter sets
+       result.rank = (test.rank, position of the test in test.parent_suite.get_tests()) and Python compares these pairs
+       lexicographically; n_rank is that pair as the order-isomorphic integer  test.rank * rank_base + position
+       (position < rank_base is checked by the harnesses that print events; position = 0 for a test without parent suite).
+   Only the order of the keys matters: the rank is not part of the report's normal form. *)
+Definition rank_base : Z := 1048576.      (* 2^20 *)
+Definition test_key (rank position : Z) : Z := (rank * rank_base + position)%Z.
 Record node := mkNode { n_parent : path; n_meta : meta; n_rank : Z }.
 Definition node_path (n : node) : path := n_parent n ++ [m_name (n_meta n)].
 
